@@ -211,7 +211,19 @@ def observe(ns, names) -> dict:
     rebuilt = gamma_state(tree)
     changed = gamma_state(tree)
     changed["zz_new_key"] = 1
+    # the conversions return COPIES: the dictionary given to dict_to_namespace is left as it was, two conversions of
+    # one dictionary share nothing with each other or with the dictionary, namespace_to_dict shares nothing with ns
+    d_in = namespace_to_dict(ns)
+    r1, r2 = dict_to_namespace(d_in), dict_to_namespace(d_in)
+    _mutate_everything(r1)
+    d2n_second, d2n_input_after = alpha(r2), [pc for pc in alpha_val(d_in) if pc[0]]
+    n2d_copy = namespace_to_dict(ns)
+    _mutate_everything(n2d_copy)
+    n2d_indep = canon(alpha(ns)) == before
     return {
+        "d2n_second": d2n_second,
+        "d2n_input_after": d2n_input_after,
+        "n2d_indep": n2d_indep,
         "keys": [k.split(".") for k in ns.keys()],
         "keys_b": keys_b,
         "items_keys": [k.split(".") for k, _ in ns.items()],
